@@ -504,7 +504,7 @@ def _run_oml(case, np, ops, S):
     if mapk == 'a':
         mp = np.zeros(len(case['L']), dtype=np.int64)
     elif mapk == 'f':
-        mp = _reg(case, 'map', 0, lambda: _nfield(None, 'int64', h5))
+        mp = _reg(case, 'map', 0, lambda: _nfield(None, case.get('mdt', 'int64'), h5))
     lu, ru = _flags(case)
     g = lambda x: _arg(x, grp)
     seq = list if case.get('lst') else tuple            # the payload / sink collections as lists
@@ -520,6 +520,10 @@ def _run_oml(case, np, ops, S):
     out_map = None
     if mapk == 'f':
         out_map = [int(x) for x in mp.data[:]]
+        if case.get('mdt', 'int64') != 'int64':
+            # a narrower map field marks unmatched rows with the largest value of its dtype (fix F-C19h); canonical form: 1 << 62
+            top = int(np.iinfo(case['mdt']).max)
+            out_map = [INV64 if x == top else x for x in out_map]
     return [None if ret is None else [col(x) for x in ret], out_sinks, out_map]
 
 
@@ -997,6 +1001,7 @@ def features(case, model):
             f.append('flag:non-bool-falsy-hint-with-duplicates-on-that-side')
     if case.get('csf'): f.append('chunksize-form:' + case['csf'])
     if case.get('invf'): f.append('invalid-marker-form:' + case['invf'])
+    if case.get('mdt'): f.append('map-field-dtype:' + case['mdt'])
     if case.get('km'): f.append('keymap:' + case['km'])
     if case.get('kmx'):
         A, B = case['kmx']
@@ -1124,6 +1129,20 @@ def _istr(n, k):
 
 
 def gen(tier, rng):
+    """all generators; the streamed ordered_merge_left/right cases additionally rotate the dtype of the map FIELD (int64,
+    int32, int16: the marker of unmatched rows has to fit it — F-C19h)"""
+    k = 0
+    for c in _gen_all(tier, rng):
+        if c.get('op') == 'oml' and c.get('form') == 'fs' and c.get('mapk') == 'f' and not c.get('reg'):
+            k += 1
+            if k % 3 == 1:
+                c = dict(c, mdt='int32')
+            elif k % 9 == 2:
+                c = dict(c, mdt='int16')
+        yield c
+
+
+def _gen_all(tier, rng):
     big = tier == 'thorough'
     # ---- kernels, exhaustive over order-types
     n, k = (6, 4) if big else (4, 4)
